@@ -262,9 +262,12 @@ pub fn lane_response_pool<T: Clone>(bodies: &[T]) -> Vec<LaneResponse<T>> {
     for b in bodies {
         v.push(LaneResponse::StandardEvent(b.clone()));
     }
-    for id in uuids() {
-        for b in bodies {
-            v.push(LaneResponse::SyncEvent(id, b.clone()));
+    for (n, id) in uuids().into_iter().rev().enumerate() {
+        for (i, b) in bodies.iter().enumerate() {
+            // the second uuid only with the first bodies (uuid and body are independent fields)
+            if n == 0 || i < 2 {
+                v.push(LaneResponse::SyncEvent(id, b.clone()));
+            }
         }
     }
     v
@@ -383,45 +386,41 @@ pub fn dlop_item(m: &DlOp) -> DownlinkOperation<Value> {
 
 pub type CM = CommandMessage<String, P>;
 
-pub fn addresses(full: bool) -> Vec<Address<String>> {
-    let mut v = vec![];
-    let hosts: Vec<Option<String>> = vec![None, Some("h\u{e9}".to_string())];
-    let lanes: Vec<&str> = if full { vec!["", "ln"] } else { vec!["ln"] };
-    for h in &hosts {
-        for l in &lanes {
-            v.push(Address::new(h.clone(), "/n".to_string(), l.to_string()));
-        }
-    }
-    if full {
-        v.push(Address::new(Some(String::new()), String::new(), String::new()));
-    }
-    v
+pub fn addresses() -> Vec<Address<String>> {
+    vec![
+        Address::new(None, "/n".to_string(), "ln".to_string()),
+        Address::new(Some("h\u{e9}".to_string()), "/n".to_string(), "ln".to_string()),
+        Address::new(None, "/n".to_string(), String::new()),
+        Address::new(Some(String::new()), String::new(), String::new()),
+    ]
 }
 
-pub fn command_pool(bodies: &[P], full: bool) -> Vec<CM> {
+/// Every constructor with every body and both flag values on the first address / id; the other
+/// addresses and ids (independent header fields) with one body each.
+pub fn command_pool(bodies: &[P]) -> Vec<CM> {
     let mut v = vec![];
-    let ids: Vec<u16> = if full { vec![0, 0x0102, u16::MAX] } else { vec![0x0102] };
-    for a in addresses(full) {
-        for id in &ids {
-            v.push(CommandMessage::Register { address: a.clone(), id: *id });
+    let ad = addresses();
+    for a in &ad {
+        v.push(CommandMessage::Register { address: a.clone(), id: 0x0102 });
+    }
+    for id in [0u16, u16::MAX] {
+        v.push(CommandMessage::Register { address: ad[0].clone(), id });
+    }
+    for b in bodies {
+        for ow in [false, true] {
+            v.push(CommandMessage::Registered { target: 0x0102, command: b.clone(), overwrite_permitted: ow });
         }
     }
-    for id in &ids {
-        for b in bodies {
-            for ow in [false, true] {
-                v.push(CommandMessage::Registered { target: *id, command: b.clone(), overwrite_permitted: ow });
-            }
+    for id in [0u16, u16::MAX] {
+        v.push(CommandMessage::Registered { target: id, command: bodies[1].clone(), overwrite_permitted: false });
+    }
+    for b in bodies {
+        for ow in [false, true] {
+            v.push(CommandMessage::Addressed { target: ad[0].clone(), command: b.clone(), overwrite_permitted: ow });
         }
     }
-    for a in addresses(full) {
-        for (i, b) in bodies.iter().enumerate() {
-            for ow in [false, true] {
-                if !full && ow && i > 0 {
-                    continue;
-                }
-                v.push(CommandMessage::Addressed { target: a.clone(), command: b.clone(), overwrite_permitted: ow });
-            }
-        }
+    for a in &ad[1..] {
+        v.push(CommandMessage::Addressed { target: a.clone(), command: bodies[1].clone(), overwrite_permitted: false });
     }
     v
 }
@@ -481,28 +480,29 @@ pub fn cm_variant(m: &CM) -> V2 {
 pub type RQ = RequestMessage<String, P>;
 pub type RS = ResponseMessage<String, P, P>;
 
-pub fn paths(full: bool) -> Vec<RelativeAddress<String>> {
-    let mut v = vec![RelativeAddress::new("/n".to_string(), "l\u{e9}".to_string())];
-    if full {
-        v.push(RelativeAddress::new("/n".to_string(), String::new()));
-        v.push(RelativeAddress::new(String::new(), "a".to_string()));
-    }
-    v
+pub fn paths() -> Vec<RelativeAddress<String>> {
+    vec![
+        RelativeAddress::new("/n".to_string(), "l\u{e9}".to_string()),
+        RelativeAddress::new("/n".to_string(), String::new()),
+        RelativeAddress::new(String::new(), "a".to_string()),
+    ]
 }
 
-pub fn request_pool(bodies: &[P], full: bool) -> Vec<RQ> {
+/// Every envelope on the first path with uuid MAX; uuid 0 and the other paths (independent header
+/// fields) with `Link` and one command each.
+pub fn request_pool(bodies: &[P]) -> Vec<RQ> {
     let mut v = vec![];
-    let ids = if full { uuids() } else { vec![Uuid::from_u128(u128::MAX)] };
-    for path in paths(full) {
-        for origin in &ids {
-            let mut envs = vec![Operation::Link, Operation::Sync, Operation::Unlink];
-            for b in bodies {
-                envs.push(Operation::Command(b.clone()));
-            }
-            for envelope in envs {
-                v.push(RequestMessage { origin: *origin, path: path.clone(), envelope });
-            }
-        }
+    let ps = paths();
+    let mut envs = vec![Operation::Link, Operation::Sync, Operation::Unlink];
+    for b in bodies {
+        envs.push(Operation::Command(b.clone()));
+    }
+    for envelope in envs {
+        v.push(RequestMessage { origin: Uuid::from_u128(u128::MAX), path: ps[0].clone(), envelope });
+    }
+    for (origin, path) in [(Uuid::from_u128(0), ps[0].clone()), (Uuid::from_u128(u128::MAX), ps[1].clone()), (Uuid::from_u128(0), ps[2].clone())] {
+        v.push(RequestMessage { origin, path: path.clone(), envelope: Operation::Link });
+        v.push(RequestMessage { origin, path, envelope: Operation::Command(bodies[1].clone()) });
     }
     v
 }
@@ -518,22 +518,22 @@ pub fn bad_request_pool() -> Vec<RQ> {
         .collect()
 }
 
-pub fn response_pool(bodies: &[P], unlinked_bodies: &[P], full: bool) -> Vec<RS> {
+pub fn response_pool(bodies: &[P], unlinked_bodies: &[P]) -> Vec<RS> {
     let mut v = vec![];
-    let ids = if full { uuids() } else { vec![Uuid::from_u128(u128::MAX)] };
-    for path in paths(full) {
-        for origin in &ids {
-            let mut envs = vec![Notification::Linked, Notification::Synced, Notification::Unlinked(None)];
-            for b in unlinked_bodies {
-                envs.push(Notification::Unlinked(Some(b.clone())));
-            }
-            for b in bodies {
-                envs.push(Notification::Event(b.clone()));
-            }
-            for envelope in envs {
-                v.push(ResponseMessage { origin: *origin, path: path.clone(), envelope });
-            }
-        }
+    let ps = paths();
+    let mut envs = vec![Notification::Linked, Notification::Synced, Notification::Unlinked(None)];
+    for b in unlinked_bodies {
+        envs.push(Notification::Unlinked(Some(b.clone())));
+    }
+    for b in bodies {
+        envs.push(Notification::Event(b.clone()));
+    }
+    for envelope in envs {
+        v.push(ResponseMessage { origin: Uuid::from_u128(u128::MAX), path: ps[0].clone(), envelope });
+    }
+    for (origin, path) in [(Uuid::from_u128(0), ps[0].clone()), (Uuid::from_u128(u128::MAX), ps[1].clone()), (Uuid::from_u128(0), ps[2].clone())] {
+        v.push(ResponseMessage { origin, path: path.clone(), envelope: Notification::Linked });
+        v.push(ResponseMessage { origin, path, envelope: Notification::Event(bodies[1].clone()) });
     }
     v
 }
